@@ -29,9 +29,22 @@ Also proved for all map contents: the map as a multiset of (path, referrer) pair
 (`C05_add_count`, `C05_remove_count`, `C05_fix_count`), and what `set_item_name`'s rewriting loop does to the map as a
 whole (`C05_rename_map`: the referrers of `q` afterwards are the referrers of all old keys rewritten to `q`, lists merged —
 the repaired defect §9 #5 is exactly the merge).
-Partial (named so): `set_item_name`, move, copy, `set_reference_target` and loading are outside the proved alphabet; the
-invalid-reference report / resolve equivalence is decided by the correspondence run (the dump lists every key of the
-reverse map, hook H1) and by the direct oracle on the real library.
+LARGER ALPHABET (`OpX`: + `set_item_name`, `set_reference_target`, `sort`; `Lemmas/StepX.lean`):
+`C05_referrers_exact_reachable_larger_alphabet` — the same statement in every state reachable by any guarded history that also
+renames, re-targets and sorts.
+SECOND SENTENCE of the property, PROVED over all such histories (`Lemmas/CheckRefs.lean`, `IdsSep.lean`, `IdsSepX.lean`):
+`C05_report_is_exact` — the report of `check_references` (the id list `checkRefsIds` that `qCheckRefs` prints) contains precisely
+the reference elements of the model that hold a text and whose `get_reference_target` (`refTarget`) fails;
+`C05_absent_from_report_iff_resolves`; `C05_report_lists_each_once`; `C05_report_in_words` (… precisely the references whose
+path does not resolve to an identifiable element of the model or whose DEST does not fit the target's type);
+`C05_resolve_is_sound` (what `get_reference_target` returns is an element of the same model with exactly that path and a type the
+DEST fits).  They need that ids of different models are disjoint (`IdsSep`, an invariant of all histories — with the root ids
+excepted: an unfiled root has id 0, `C05_unfiled_roots_share_id_0` is the counterexample to the naive statement) and two facts
+about the root type, checked on the regenerated tables (`C05_real_root_facts`).
+`C05_set_reference_target_resolves`: after a successful `set_reference_target` in any reachable state the reference resolves to the
+target (same model; the proposed DEST is accepted by the target type — C18's statement about the tables, here a hypothesis).
+Partial (named so): move, copy and loading are outside the proved alphabet; for them the report / resolve equivalence is decided
+by the correspondence run (the dump lists every key of the reverse map, hook H1) and by the direct oracle on the real library.
 -/
 import AutosarVerif.Lemmas.WorldOps
 import AutosarVerif.Lemmas.RefsBridge
@@ -39,6 +52,11 @@ import AutosarVerif.Lemmas.RenameRefsMap
 import AutosarVerif.Lemmas.IndexWitness
 import AutosarVerif.Lemmas.RefsWitness
 import AutosarVerif.Lemmas.RefWfReal
+import AutosarVerif.Lemmas.StepX
+import AutosarVerif.Lemmas.IdsSepX
+import AutosarVerif.Lemmas.CheckRefsWitness
+import AutosarVerif.Lemmas.CheckRefsReal
+import AutosarVerif.Lemmas.SetRefWitness
 
 namespace AV.C05
 open AV.W
@@ -98,6 +116,81 @@ theorem C05_referrers_exact_reachable (S : Spec) (V : Env) (vOk : Nat) (rootAttr
   obtain ⟨hw, hr, _, _⟩ := run_cinv S V vOk rootAttrs hH hR ops hops
   have he := hr m hm
   exact ⟨he.1, he.2.1, fun p id _ => refsExact_count S m.refs m.rootItems (hw m hm).ids he p id⟩
+
+/-- **C05 over all histories of the larger alphabet** -/
+theorem C05_referrers_exact_reachable_larger_alphabet (S : Spec) (V : Env) (vOk : Nat) (rootAttrs : List (Nat × CDv))
+    (hH : IdxHyp S V vOk) (hR : RefWF S) (hv32 : vOk &&& 0xFFFFFFFF = vOk) (ops : List OpX)
+    (hops : ∀ op ∈ ops, OpXOk S vOk op) :
+    ∀ m ∈ (runX S V rootAttrs ops).models,
+      keysNodup m.refs ∧ refsNonempty m.refs ∧
+      ∀ (p : Bytes) (id : Nat)
+        [Decidable (∃ h k, Occ h k m.rootItems ∧ h.id = id ∧ S.isRef h.ety.typ = true ∧ charData S h k = some (.str p))],
+        (refsGet m.refs p).count id =
+          if ∃ h k, Occ h k m.rootItems ∧ h.id = id ∧ S.isRef h.ety.typ = true ∧ charData S h k = some (.str p) then 1 else 0 := by
+  intro m hm
+  obtain ⟨hw, hr, _, _⟩ := (runX_finv S V vOk rootAttrs hH hR hv32 ops hops).1
+  have he := hr m hm
+  exact ⟨he.1, he.2.1, fun p id _ => refsExact_count S m.refs m.rootItems (hw m hm).ids he p id⟩
+
+/-- the invalid-reference report is exact, in every state reachable by any guarded history of the larger alphabet -/
+theorem C05_report_is_exact (S : Spec) (V : Env) (vOk : Nat) (rootAttrs : List (Nat × CDv)) (hH : IdxHyp S V vOk) (hR : RefWF S)
+    (hv32 : vOk &&& 0xFFFFFFFF = vOk) (ops : List OpX) (hops : ∀ op ∈ ops, OpXOk S vOk op) (k : Nat) (m : Model)
+    (hm : (runX S V rootAttrs ops).models[k]? = some m) (r : Nat) :
+    r ∈ checkRefsIds S V (runX S V rootAttrs ops) k ↔
+      (∃ h k0 p, Occ h k0 m.rootItems ∧ h.id = r ∧ S.isRef h.ety.typ = true ∧ charData S h k0 = some (.str p)) ∧
+        refTarget S V (runX S V rootAttrs ops) r = none :=
+  runX_mem_checkRefsIds S V vOk rootAttrs hH hR hv32 ops hops k m hm r
+/-- what the driver prints for `checkrefs` is that list -/
+theorem C05_report_is_what_is_printed (S : Spec) (V : Env) (w : World) (k : Nat) :
+    qCheckRefs S V w k = match w.models[k]? with
+      | none => "bad-op" | some _ => showIds (checkRefsIds S V w k) := qCheckRefs_eq S V w k
+theorem C05_absent_from_report_iff_resolves (S : Spec) (V : Env) (vOk : Nat) (rootAttrs : List (Nat × CDv)) (hH : IdxHyp S V vOk)
+    (hR : RefWF S) (hv32 : vOk &&& 0xFFFFFFFF = vOk) (ops : List OpX) (hops : ∀ op ∈ ops, OpXOk S vOk op) (k : Nat) (m : Model)
+    (hm : (runX S V rootAttrs ops).models[k]? = some m) (h : Hdr) (k0 : Items) (p : Bytes) (ho : Occ h k0 m.rootItems)
+    (hr : S.isRef h.ety.typ = true) (hc : charData S h k0 = some (.str p)) :
+    h.id ∉ checkRefsIds S V (runX S V rootAttrs ops) k ↔ ∃ t, refTarget S V (runX S V rootAttrs ops) h.id = some t :=
+  runX_not_mem_checkRefsIds_iff S V vOk rootAttrs hH hR hv32 ops hops k m hm h k0 p ho hr hc
+theorem C05_report_lists_each_once (S : Spec) (V : Env) (vOk : Nat) (rootAttrs : List (Nat × CDv)) (hH : IdxHyp S V vOk)
+    (hR : RefWF S) (hv32 : vOk &&& 0xFFFFFFFF = vOk) (ops : List OpX) (hops : ∀ op ∈ ops, OpXOk S vOk op) (k r : Nat) :
+    (checkRefsIds S V (runX S V rootAttrs ops) k).count r ≤ 1 :=
+  runX_checkRefsIds_count S V vOk rootAttrs hH hR hv32 ops hops k r
+theorem C05_report_in_words (S : Spec) (V : Env) (vOk : Nat) (rootAttrs : List (Nat × CDv)) (hH : IdxHyp S V vOk) (hR : RefWF S)
+    (hv32 : vOk &&& 0xFFFFFFFF = vOk) (hrootN : S.isNamed (S.defType S.rootDef) = false) (ops : List OpX)
+    (hops : ∀ op ∈ ops, OpXOk S vOk op) (k : Nat) (m : Model) (hm : (runX S V rootAttrs ops).models[k]? = some m)
+    (hx : Hdr) (kx : Items) (p : Bytes) (ho : Occ hx kx m.rootItems) (hr : S.isRef hx.ety.typ = true)
+    (hc : charData S hx kx = some (.str p)) :
+    hx.id ∈ checkRefsIds S V (runX S V rootAttrs ops) k ↔
+      ¬ ∃ t ct d, m.rootItems.chain t = some ct ∧ (itemName S (lastOf ct).1 (lastOf ct).2).isSome = true ∧
+        pathOfChain S ct = p ∧ attrVal hx V.nmDest = some (.enum d) ∧ S.verifyDest (lastOf ct).1.ety.typ d = true :=
+  runX_mem_checkRefsIds_words S V vOk rootAttrs hH hR hv32 hrootN ops hops k m hm hx kx p ho hr hc
+theorem C05_resolve_is_sound (S : Spec) (V : Env) (vOk : Nat) (rootAttrs : List (Nat × CDv)) (hH : IdxHyp S V vOk) (hR : RefWF S)
+    (hv32 : vOk &&& 0xFFFFFFFF = vOk) (hrootN : S.isNamed (S.defType S.rootDef) = false) (ops : List OpX)
+    (hops : ∀ op ∈ ops, OpXOk S vOk op) (x t : Nat) (hrt : refTarget S V (runX S V rootAttrs ops) x = some t) :
+    ∃ (k : Nat) (m : Model) (hx : Hdr) (kx : Items) (p : Bytes) (ct : List (Hdr × Items)) (d : Nat),
+      (runX S V rootAttrs ops).models[k]? = some m ∧
+      Occ hx kx m.rootItems ∧ hx.id = x ∧ S.isRef hx.ety.typ = true ∧ charData S hx kx = some (.str p) ∧
+      m.rootItems.chain t = some ct ∧ (itemName S (lastOf ct).1 (lastOf ct).2).isSome = true ∧ pathOfChain S ct = p ∧
+      attrVal hx V.nmDest = some (.enum d) ∧ S.verifyDest (lastOf ct).1.ety.typ d = true :=
+  runX_refTarget_sound S V vOk rootAttrs hH hR hv32 hrootN ops hops x t hrt
+/-- ids of different models are disjoint in every reachable state (root ids excepted) -/
+theorem C05_ids_of_models_disjoint (S : Spec) (V : Env) (vOk : Nat) (rootAttrs : List (Nat × CDv)) (hH : IdxHyp S V vOk)
+    (hR : RefWF S) (hv32 : vOk &&& 0xFFFFFFFF = vOk) (ops : List OpX) (hops : ∀ op ∈ ops, OpXOk S vOk op) :
+    IdsSep (runX S V rootAttrs ops) := runX_idsSep S V vOk rootAttrs hH hR hv32 ops hops
+/-- the two facts about the root type hold of the regenerated tables -/
+theorem C05_real_root_facts : AV.Gen.realSpec.isRef (AV.Gen.realSpec.defType AV.Gen.realSpec.rootDef) = false ∧
+    AV.Gen.realSpec.isNamed (AV.Gen.realSpec.defType AV.Gen.realSpec.rootDef) = false :=
+  ⟨AV.Gen.realSpec_root_not_ref, AV.Gen.realSpec_root_not_named⟩
+/-- after a successful `set_reference_target` in any reachable state the reference resolves to the target -/
+theorem C05_set_reference_target_resolves (S : Spec) (V : Env) (vOk : Nat) (rootAttrs : List (Nat × CDv)) (hH : IdxHyp S V vOk)
+    (hR : RefWF S) (hv32 : vOk &&& 0xFFFFFFFF = vOk) (ops : List OpX) (hops : ∀ op ∈ ops, OpXOk S vOk op) (x t : Nat)
+    (hne : (opSetRef S V (runX S V rootAttrs ops) x t).2 ≠ .err)
+    (hsame : ∀ k c kt tc, locate (runX S V rootAttrs ops) x = some (k, c) → locate (runX S V rootAttrs ops) t = some (kt, tc) →
+      kt = k)
+    (hdest : ∀ k c kt tc it, locate (runX S V rootAttrs ops) x = some (k, c) →
+      locate (runX S V rootAttrs ops) t = some (kt, tc) →
+      setRefItem S V (lastOf c).1 (lastOf tc).1 = some it → S.verifyDest (lastOf tc).1.ety.typ it = true) :
+    refTarget S V (runX S V rootAttrs (ops ++ [.setref x t])) x = some t :=
+  runX_setref_target S V vOk rootAttrs hH hR hv32 ops hops x t hne hsame hdest
 
 /-- the facts the invariant needs about reference types hold of the tables regenerated from the current source -/
 theorem C05_real_tables : RefWF AV.Gen.realSpec := AV.Gen.realSpec_refWF
